@@ -264,3 +264,87 @@ def init_composes(key, x0: Real, x1: Real, x2: Real, x3: Real, x4: Real, x5: Rea
         check("C12.init.x", And(*[real.x[i] == ref.x[i] for i in range(length(ref.x))]))
     check("C12.init.named.type", real.named_coeffs.model_type == ref.named_coeffs.model_type)
     check("C12.init.f_unc", real.f_unc >= 0)
+
+
+# ----------------------------------------------------------------------------- the box handed to the optimiser
+
+UPDATE_BNDS = repo("opendsm/eemeter/models/daily/base_models/hdd_tidd_cdd.py::_hdd_tidd_cdd_smooth_update_bnds")
+OPAQUE["opendsm/eemeter/models/daily/utilities/base_model.py::fix_identical_bnds"] = "fix_identical_effect"
+
+
+def fix_identical_effect(bnds):
+    """assumed contract of fix_identical_bnds (numba; 10 ** order of magnitude): a row whose two bounds coincide is widened by the same positive
+    amount on both sides, every other row is returned as it is"""
+    out = []
+    for row in bnds:
+        if row[0] == row[1]:
+            d = fresh_real("widen")
+            assume(d > 0)
+            out.append([row[0] - d, row[1] + d])
+        else:
+            out.append([row[0], row[1]])
+    return out
+
+
+BND_CASES = [{"smooth": s, "given": g} for s in [True, False] for g in [False, True]]
+
+
+@harness("C12.box", prop="C12", cases=BND_CASES)
+def box(smooth, given, a0: Real, a1: Real, a2: Real, a3: Real, a4: Real, a5: Real, a6: Real, a7: Real, a8: Real, a9: Real, a10: Real, a11: Real, a12: Real, a13: Real,
+        T_lo: Real, T_hi: Real, smax: Real, i_lo: Real, i_hi: Real):
+    """_hdd_tidd_cdd_smooth_update_bnds: whatever bounds a caller passes in (and whatever coincides), the box handed to the optimiser has ordered rows,
+    NON-NEGATIVE lower bounds for every slope and smoothing parameter, and the breakpoint / intercept rows of the freshly computed bounds."""
+    assume(And(T_lo <= T_hi, smax >= 0, i_lo <= i_hi))
+    if smooth:
+        fresh = [[T_lo, T_hi], [0, smax], [0, 1], [T_lo, T_hi], [0, smax], [0, 1], [i_lo, i_hi]]
+        old = [[a0, a1], [a2, a3], [a4, a5], [a6, a7], [a8, a9], [a10, a11], [a12, a13]]
+        slope_k = [1, 2, 4, 5]
+        bp = [0, 3]
+        ic = 6
+    else:
+        fresh = [[T_lo, T_hi], [0, smax], [T_lo, T_hi], [0, smax], [i_lo, i_hi]]
+        old = [[a0, a1], [a2, a3], [a4, a5], [a6, a7], [a8, a9]]
+        slope_k = [1, 3]
+        bp = [0, 2]
+        ic = 4
+    # precondition on bounds handed in by a caller (the final fit re-uses the scaled bounds of the prior fit): a slope / smoothing row is not
+    # entirely negative
+    for i in slope_k:
+        assume(Or(old[i][0] >= 0, old[i][1] >= 0))
+    out = UPDATE_BNDS(old if given else None, fresh, smooth)
+    check("C12.box.rows", length(out) == len(fresh))
+    for i in range(len(fresh)):
+        check("C12.box.ordered", out[i][0] <= out[i][1])
+    for i in slope_k:
+        check("C12.box.nonneg_lower", out[i][0] >= 0)
+    for i in bp:
+        check("C12.box.breakpoints", And(out[i][0] <= T_lo, out[i][1] >= T_hi, implies(T_lo < T_hi, And(out[i][0] == T_lo, out[i][1] == T_hi))))
+    check("C12.box.intercept", implies(i_lo < i_hi, And(out[ic][0] == i_lo, out[ic][1] == i_hi)))
+
+
+C_UPDATE_BNDS = repo("opendsm/eemeter/models/daily/base_models/c_hdd_tidd.py::_c_hdd_tidd_update_bnds")
+C_BND_CASES = [{"smooth": s, "given": g} for s in [True, False] for g in [False, True]]
+
+
+@harness("C12.box_one_sided", prop="C12", cases=C_BND_CASES)
+def box_one_sided(smooth, given, a0: Real, a1: Real, a2: Real, a3: Real, a4: Real, a5: Real, a6: Real, a7: Real, T_lo: Real, T_hi: Real, smax: Real,
+                  i_lo: Real, i_hi: Real):
+    """_c_hdd_tidd_update_bnds: ordered rows, a non-negative lower bound for the smoothing parameter, fresh breakpoint / intercept rows"""
+    assume(And(T_lo <= T_hi, smax >= 0, i_lo <= i_hi))
+    if smooth:
+        fresh = [[T_lo, T_hi], [0 - smax, smax], [0, 1000], [i_lo, i_hi]]
+        old = [[a0, a1], [a2, a3], [a4, a5], [a6, a7]]
+        ic = 3
+        assume(Or(old[2][0] >= 0, old[2][1] >= 0))
+    else:
+        fresh = [[T_lo, T_hi], [0 - smax, smax], [i_lo, i_hi]]
+        old = [[a0, a1], [a2, a3], [a4, a5]]
+        ic = 2
+    out = C_UPDATE_BNDS(old if given else None, fresh, smooth)
+    check("C12.box_one_sided.rows", length(out) == len(fresh))
+    for i in range(len(fresh)):
+        check("C12.box_one_sided.ordered", out[i][0] <= out[i][1])
+    if smooth:
+        check("C12.box_one_sided.k_nonneg_lower", out[2][0] >= 0)
+    check("C12.box_one_sided.breakpoint", implies(T_lo < T_hi, And(out[0][0] == T_lo, out[0][1] == T_hi)))
+    check("C12.box_one_sided.intercept", implies(i_lo < i_hi, And(out[ic][0] == i_lo, out[ic][1] == i_hi)))
